@@ -446,9 +446,9 @@ class MetaDataReplace(MosFile):
         for source in self.base_tag:
             target, target_index = find_child(parent=ro.base_tag, child_tag=source.tag)
             if target is None:
-                insert_node(parent=ro.base_tag, node=source, index=len(ro.base_tag))
+                insert_node(parent=ro.base_tag, node=copy.deepcopy(source), index=len(ro.base_tag))
             else:
-                replace_node(parent=ro.base_tag, old_node=target, new_node=source, index=target_index)
+                replace_node(parent=ro.base_tag, old_node=target, new_node=copy.deepcopy(source), index=target_index)
         return ro
 
     def inspect(self):
@@ -499,7 +499,7 @@ class StoryAppend(MosFile):
         Merge into the :class:`RunningOrder` object provided.
         """
         for story in self.stories:
-            append_node(ro.base_tag, story.xml)
+            append_node(ro.base_tag, copy.deepcopy(story.xml))
         return ro
 
     def inspect(self):
@@ -693,7 +693,7 @@ class StoryInsert(MosFile):
                 logger.warning(msg)
                 warnings.warn(msg, DuplicateStoryWarning)
                 continue
-            insert_node(parent=ro.base_tag, node=new_story.xml, index=story_index)
+            insert_node(parent=ro.base_tag, node=copy.deepcopy(new_story.xml), index=story_index)
             # only a story that was inserted moves the insertion point on
             story_index += 1
         return ro
@@ -778,7 +778,7 @@ class ItemInsert(MosFile):
                     f"{self.__class__.__name__} error in {self.message_id} - target item not found"
                 )
         for i, item in enumerate(self.items, start=item_index):
-            insert_node(parent=story, node=item.xml, index=i)
+            insert_node(parent=story, node=copy.deepcopy(item.xml), index=i)
         return ro
 
     def inspect(self):
@@ -1049,7 +1049,7 @@ class StoryReplace(MosFile):
             )
         remove_node(parent=ro.base_tag, node=story)
         for i, new_story in enumerate(self.stories, start=story_index):
-            insert_node(parent=ro.base_tag, node=new_story.xml, index=i)
+            insert_node(parent=ro.base_tag, node=copy.deepcopy(new_story.xml), index=i)
         return ro
 
     def inspect(self):
@@ -1128,7 +1128,7 @@ class ItemReplace(MosFile):
 
         remove_node(parent=story, node=item)
         for i, item in enumerate(self.items, start=item_index):
-            insert_node(parent=story, node=item.xml, index=i)
+            insert_node(parent=story, node=copy.deepcopy(item.xml), index=i)
         return ro
 
     def inspect(self):
@@ -1257,7 +1257,7 @@ class RunningOrderEnd(MosFile):
         ``roDelete`` message to the ``roCreate`` tag in the running order.
         """
         mosromgrmeta = SubElement(ro.xml, 'mosromgrmeta')
-        mosromgrmeta.append(self.base_tag)
+        mosromgrmeta.append(copy.deepcopy(self.base_tag))
         return ro
 
     def inspect(self):
@@ -1363,7 +1363,7 @@ class EAStoryReplace(ElementAction):
             )
         remove_node(parent=ro.base_tag, node=story)
         for i, new_story in enumerate(self.stories, start=story_index):
-            insert_node(parent=ro.base_tag, node=new_story.xml, index=i)
+            insert_node(parent=ro.base_tag, node=copy.deepcopy(new_story.xml), index=i)
         return ro
 
     def inspect(self):
@@ -1434,7 +1434,7 @@ class EAItemReplace(ElementAction):
             )
         remove_node(parent=story, node=item)
         for i, new_item in enumerate(self.items, start=item_index):
-            insert_node(parent=story, node=new_item.xml, index=i)
+            insert_node(parent=story, node=copy.deepcopy(new_item.xml), index=i)
         return ro
 
     def inspect(self):
@@ -1626,7 +1626,7 @@ class EAStoryInsert(ElementAction):
                 logger.warning(msg)
                 warnings.warn(msg, DuplicateStoryWarning)
             else:
-                insert_node(parent=ro.base_tag, node=new_story.xml, index=story_index)
+                insert_node(parent=ro.base_tag, node=copy.deepcopy(new_story.xml), index=story_index)
                 # only a story that was inserted moves the insertion point on
                 story_index += 1
         return ro
@@ -1704,7 +1704,7 @@ class EAItemInsert(ElementAction):
                     f"{self.__class__.__name__} error in {self.message_id} - item not found"
                 )
         for i, new_item in enumerate(self.items, start=item_index):
-            insert_node(parent=story, node=new_item.xml, index=i)
+            insert_node(parent=story, node=copy.deepcopy(new_item.xml), index=i)
         return ro
 
     def inspect(self):
